@@ -293,6 +293,11 @@ CORPUS = [
     # the same SID granted to two services; renewal answered with a colliding SID
     {"nsvc": 2, "ops": [["sub", 0, 1800, [R(200, "uuid:a")]], ["sub", 1, 1800, [R(200, "uuid:a")]], ["sub", 0, 1800, [R(200, "uuid:b")]],
                         ["resub", "i", "uuid:b", 1800, [R(200, "uuid:a")]], ["unsuball", [R(200)]]]},
+    # round 3: values repeat — the SID of one service goes a -> b -> a over renewals, the same SID is granted again after an unsubscribe,
+    # the identical call is made twice (the exhaustive part is a product WITH repetition, so every letter also follows itself)
+    {"nsvc": 2, "ops": [["sub", 0, 1800, [R(200, "uuid:a")]], ["resub", "s", 0, 1800, [R(200, "uuid:b")]], ["resub", "s", 0, 1800, [R(200, "uuid:a")]],
+                        ["unsub", "i", "uuid:a", [R(200)]], ["sub", 0, 1800, [R(200, "uuid:a")]], ["sub", 0, 1800, [R(200, "uuid:a")]],
+                        ["sub", 1, 1800, [R(200, "uuid:a")]], ["unsub", "i", "uuid:a", [R(200)]], ["unsub", "i", "uuid:a", [R(200)]]]},
     # timeouts longer than a day (timedelta.seconds drops the days), empty SID
     {"nsvc": 1, "ops": [["sub", 0, 86405, [R(200, "", "Second-infinite")]], ["resub", "s", 0, 86405, []], ["resub", "i", "", 90000, [R(200)]]]},
     # garbage granted timeouts (F09b: used to raise half-way; judged except for the returned timeout value)
